@@ -95,11 +95,16 @@ idl_a_demux_feed		(vbi_idl_demux *	dx,
 
 	spa = 0;
 
-	for (i = 0; i < spa_length; ++i)
-		spa |= vbi_unham8 (buffer[4 + i]) << (4 * i);
+	for (i = 0; i < spa_length; ++i) {
+		int t;
 
-	if (spa < 0) {
-		return FALSE;
+		/* Test before shifting: t << n is undefined for t < 0. */
+		t = vbi_unham8 (buffer[4 + i]);
+		if (t < 0) {
+			return FALSE;
+		}
+
+		spa |= t << (4 * i);
 	}
 
 	if (spa != dx->address)
